@@ -239,6 +239,12 @@ func (group *AbacoGroup) fillMissingPackets() (bytesAdded, packetsAdded, framesA
 	snexpect := group.lastSN + 1
 	for _, p := range group.queue {
 		sn := p.SequenceNumber()
+		if sn < snexpect && sn <= group.lastSN {
+			// Still queued from an earlier read (another group is lagging) and already accounted for:
+			// it must not advance the expected sequence number, or a later gap goes unnoticed.
+			newq = append(newq, p)
+			continue
+		}
 		for snexpect < sn {
 			pfake := p.MakePretendPacket(snexpect, group.nchan)
 			newq = append(newq, pfake)
